@@ -93,6 +93,8 @@ def explore_config(case):
     if not is_dp:
         extra, prog = harvest_exp(B, AL, seed, res)
         elems = elems + extra
+        from .. import harvest as _hv
+        elems = elems + [dict(tag="harvest(exp)", p=p_, refs=None) for p_ in _hv.lie_members(B, "exp", seed, tier)]
     rs = _rot_slots(AL)
     gl = [s for s in L]
     e_id = B.vec("identity")
